@@ -304,7 +304,7 @@ impl Node {
                         }
                     }
                     Err(e) => {
-                        if e.to_string().contains("Decode error") {
+                        if Self::concerns_one_frame_only(&e) {
                             tracing::warn!(
                                 "Failed to decode message from {} (likely unsupported message type): {}",
                                 remote_node,
@@ -324,6 +324,19 @@ impl Node {
                 remote_node
             );
         });
+    }
+
+    /// Errors of `receive_message_from_read_half` that are about the contents of a frame that was
+    /// read completely: the stream is still at a frame boundary, so the frame can be skipped.
+    /// Everything else (I/O errors, end of stream, timeouts, an over-long length) leaves the
+    /// stream in an unknown position and ends the connection.
+    fn concerns_one_frame_only(e: &edp_client::Error) -> bool {
+        matches!(
+            e,
+            edp_client::Error::Decode(_)
+                | edp_client::Error::InvalidControlMessage(_)
+                | edp_client::Error::Protocol(_)
+        )
     }
 
     async fn route_message(
